@@ -12170,6 +12170,14 @@ CK_RV SoftHSM::getRSAPrivateKey(RSAPrivateKey* privateKey, Token* token, OSObjec
 		coefficient = key->getByteStringValue(CKA_COEFFICIENT);
 	}
 
+	// A key without these components cannot be used; the crypto
+	// backends would dereference the missing values
+	if (modulus.size() == 0 || publicExponent.size() == 0 || privateExponent.size() == 0)
+	{
+		ERROR_MSG("The RSA private key object has no modulus, public exponent or private exponent");
+		return CKR_GENERAL_ERROR;
+	}
+
 	privateKey->setN(modulus);
 	privateKey->setE(publicExponent);
 	privateKey->setD(privateExponent);
@@ -12208,6 +12216,14 @@ CK_RV SoftHSM::getRSAPublicKey(RSAPublicKey* publicKey, Token* token, OSObject* 
 		publicExponent = key->getByteStringValue(CKA_PUBLIC_EXPONENT);
 	}
 
+	// A key without these components cannot be used; the crypto
+	// backends would dereference the missing values
+	if (modulus.size() == 0 || publicExponent.size() == 0)
+	{
+		ERROR_MSG("The RSA public key object has no modulus or no public exponent");
+		return CKR_GENERAL_ERROR;
+	}
+
 	publicKey->setN(modulus);
 	publicKey->setE(publicExponent);
 
@@ -12244,6 +12260,14 @@ CK_RV SoftHSM::getDSAPrivateKey(DSAPrivateKey* privateKey, Token* token, OSObjec
 		subprime = key->getByteStringValue(CKA_SUBPRIME);
 		generator = key->getByteStringValue(CKA_BASE);
 		value = key->getByteStringValue(CKA_VALUE);
+	}
+
+	// A key without these components cannot be used; the crypto
+	// backends would dereference the missing values
+	if (prime.size() == 0 || subprime.size() == 0 || generator.size() == 0 || value.size() == 0)
+	{
+		ERROR_MSG("The DSA private key object lacks a domain parameter or the value");
+		return CKR_GENERAL_ERROR;
 	}
 
 	privateKey->setP(prime);
@@ -12449,6 +12473,14 @@ CK_RV SoftHSM::getDHPrivateKey(DHPrivateKey* privateKey, Token* token, OSObject*
 		prime = key->getByteStringValue(CKA_PRIME);
 		generator = key->getByteStringValue(CKA_BASE);
 		value = key->getByteStringValue(CKA_VALUE);
+	}
+
+	// A key without these components cannot be used; the crypto
+	// backends would dereference the missing values
+	if (prime.size() == 0 || generator.size() == 0 || value.size() == 0)
+	{
+		ERROR_MSG("The DH private key object lacks a domain parameter or the value");
+		return CKR_GENERAL_ERROR;
 	}
 
 	privateKey->setP(prime);
